@@ -173,7 +173,20 @@ func Program(r R, g *model.GraphData, o ProgOpts) []*gripql.GraphStatement {
 }
 
 func indexFilter(r R, g *model.GraphData) *gripql.GraphStatement {
-	switch r.Intn(7) {
+	switch r.Intn(12) {
+	// filters on the id/label that no lookup can serve (negations, values of
+	// another kind): the rewrite must leave them in place
+	case 7:
+		return Has(gripql.Neq("_label", pick(r, VLabels)))
+	case 8:
+		return Has(gripql.Without("_label", VLabels[0], VLabels[1]))
+	case 9:
+		ids := vids(g, r, 1)
+		return Has(gripql.Neq("_gid", ids[0]))
+	case 10:
+		return Has(gripql.Without("_gid", toIfaces(vids(g, r, 2))...))
+	case 11:
+		return Has(gripql.And(gripql.Neq("_label", pick(r, VLabels)), gripql.Within("_label", VLabels[0], VLabels[1])))
 	case 0:
 		return HasLabel(pick(r, VLabels))
 	case 1:
@@ -435,4 +448,12 @@ func truncStep(r R) *gripql.GraphStatement {
 	default:
 		return Range(int32(r.Intn(3)), -1)
 	}
+}
+
+func toIfaces(ss []string) []interface{} {
+	out := make([]interface{}, len(ss))
+	for i, x := range ss {
+		out[i] = x
+	}
+	return out
 }
